@@ -247,7 +247,7 @@ PROPS["C09"] = {
                      P("data", "VerifDecodeBlockSizes", must_reach=("end", "packed", "unpacked", "interleaved"), maxbs=1, lens=2, unkkinds=1),
                      P("data", "VerifDecodeRequired"),
                      P("data", "VerifDecodeTime", lens=10), P("data", "VerifDecodeMetadata", lens=3),
-                     P("data", "VerifEncodeReference", nopt=2, maxbs=2),
+                     P("data", "VerifEncodeReference", nopt=2, maxbs=1), P("data", "VerifEncodeReference", nopt=1, maxbs=2),
                      P("test", "VerifBuilderPermissions")],
     },
     "bounds": {"quick": "decode: type + 1 optional field (each of the 6) in both orders with varint lengths {1,2,10} (all values incl. 2^31, 2^32-1, 2^63, 2^64-1, negative seconds as members of the symbolic range); blocksizes 0..2 unpacked / one packed run / interleaved with other fields and an unknown field; missing required fields rejected; timestamp and metadata decoders with an unknown field of every wire type; encode -> independent reference decoder with 1 optional field and 0..1 blocksizes over value magnitude classes {1,2,5,10} varint bytes, default-mode elision, permissions, decode+re-encode reproduces bytes; builder masks permissions to 12 bits (all 2^32 modes)",
@@ -326,20 +326,23 @@ PROPS["C13"] = {
                   P("hamt", "VerifHashBitsStep", must_reach=("end", "too-deep")),
                   P("hamt", "VerifIsValueLink"),
                   P("test", "VerifHostileShard", must_reach=("end", "rejected", "iterated"), depth=1, links=1),
+                  P("test", "VerifHostileFile", must_reach=("end", "rejected", "sought"), depth=0, maxbs=2, offrange=3, vals=1, slim=1),
                   P("test", "VerifReadSeekHistory", must_reach=("end", "seek-negative"), w=2, k=2, maxlen=3, steps=2),
                   P("test", "VerifReifyTotal", must_reach=("end", "shard-invalid", "unknown-type"))],
         "thorough": [P("data", "VerifDecodersArbitraryBytes", len=4),
                      P("hamt", "VerifHashBitsStep", must_reach=("end", "too-deep"), allwidths=1),
                      P("hamt", "VerifIsValueLink"),
-                     P("test", "VerifHostileShard", must_reach=("end", "rejected", "iterated"), depth=1, links=2),
+                     P("test", "VerifHostileShard", must_reach=("end", "rejected", "iterated"), depth=0, links=2),
                      P("test", "VerifHostileShard", must_reach=("end", "rejected", "iterated"), depth=1, links=1, small=0),
-                     P("test", "VerifHostileFile", must_reach=("end", "sought"), depth=1),
+                     P("test", "VerifHostileFile", must_reach=("end", "rejected", "sought"), depth=0, maxbs=3, vals=1, slim=0),
+                     P("test", "VerifHostileFile", must_reach=("end", "rejected", "sought"), depth=0, maxbs=3, offrange=3, vals=0, slim=0),
+
                      P("test", "VerifReifyTotal", must_reach=("end", "shard-invalid", "unknown-type"))],
     },
-    "bounds": {"quick": "decoders: ALL byte strings of length 3 (value xor error, no panic, step budget); hashBits.Next from any state with any width; hostile shard DAGs: root + 0..1 links, child shard with 0..1 links, fanouts {8,1024} chosen independently per shard, bitfields of 1..2 arbitrary bytes, names absent or 1..4 arbitrary bytes, children raw/shard/missing/non-UnixFS, lazy and preload, Length / 4 lookups / full iteration; negative and overflowing seeks; reification of arbitrary type / shard parameters",
-               "thorough": "byte strings of length 4; 2 links per shard; fanouts {8,16,256,1024}; hostile file DAGs (arbitrary FileSize / BlockSizes / Tsize, inconsistent counts, missing children) read and sought"},
+    "bounds": {"quick": "decoders: ALL byte strings of length 3 (value xor error, no panic, step budget); hashBits.Next from any state with any width; hostile shard DAGs: root + 0..1 links, child shard with 0..1 links, fanouts {8,1024} chosen independently per shard, bitfields of 1..2 arbitrary bytes, names absent or 1..4 arbitrary bytes, children raw/shard/missing/non-UnixFS, lazy and preload, Length / 4 lookups / full iteration; hostile file DAGs: FileSize absent or ANY 64-bit value, 0..2 BlockSizes of ANY value (fewer or more than the links), two links with Tsize absent or ANY value of 3 magnitude classes, children raw / dag-pb leaf / missing, lazy and preload, AsBytes or Seek(|off|<=3, any whence)+2 reads; negative and overflowing seeks; reification of arbitrary type / shard parameters",
+               "thorough": "byte strings of length 4; 2 links per shard (one level) ; fanouts {8,16,256,1024}; hostile file DAGs with inline data, 1..2 links, 0..3 BlockSizes, |off|<=2^40; with plausible values and all count/kind combinations"},
     "assumptions": ["panics inside dependency decoders on bytes the harness never generates (dag-pb decode of arbitrary bytes) are not this library's code"],
-    "outside": "blocks larger than the bound",
+    "outside": "blocks larger than the bound; hostile file nodes nested below hostile file nodes (2.7 million paths after an hour, not finished); two links per shard at two levels (3.2 million paths after 53 minutes, not finished)",
 }
 
 # ---------------------------------------------------------------- C14
